@@ -617,8 +617,14 @@ func (wb1) VerifySignature([]byte, wallet.Sig, wallet.Address) (bool, error) {
 
 type cb1 struct{}
 
+// (a second backend derives IDs in its own way: which backend is asked must not depend on the
+// iteration order of the participant's address map)
 func (cb1) CalcID(*channel.Params) (channel.ID, error) {
-	return channel.ID{}, errors.New("backend 1 computes no IDs")
+	var id channel.ID
+	for i := range id {
+		id[i] = 0xB1
+	}
+	return id, nil
 }
 func (cb1) Sign(wallet.Account, *channel.State) (wallet.Sig, error) {
 	return nil, errors.New("backend 1")
